@@ -49,3 +49,21 @@ pub fn c16_purge(model: &mut PModel) {
     let used: std::collections::HashSet<u32> = model.items.iter().map(|v| v.parent).collect();
     model.parents = model.parents.iter().cloned().filter(|v| used.contains(&v.id)).collect();
 }
+
+// ---- C05: nondeterminism source, hash iteration feeding output, id from an enumerate index
+pub fn uuid_from_str(s: &str) -> u64 {
+    s.len() as u64
+}
+pub fn c05_ids(names: &[String]) -> Vec<u64> {
+    names.iter().enumerate().map(|(i, n)| uuid_from_str(&format!("{}-{}", i, n))).collect()
+}
+pub fn c05_root(names: &[String]) -> Vec<String> {
+    let t = std::time::SystemTime::now();
+    let mut m = std::collections::HashMap::new();
+    for n in names {
+        m.insert(n.clone(), 1u32);
+    }
+    let _ = c05_ids(names);
+    let _ = t;
+    m.keys().cloned().collect()
+}
